@@ -1,4 +1,5 @@
 // GENERATED on every run by /verif/vx from the working tree of the repository. Do not edit.
+#![feature(allocator_api)]
 #![allow(unused_imports, unused_variables, unused_mut, dead_code, unused_unsafe, unused_parens, unused_braces)]
 use vstd::prelude::*;
 verus! {
@@ -15,6 +16,10 @@ pub assume_specification<Idx> [Range::<Idx>::is_empty] (r: &Range<Idx>) -> (b: b
 #[verifier::external_body]
 pub proof fn vx_axiom_range_is_empty_usize(r: Range<usize>)
     ensures vx_range_is_empty(r) == !(r.start < r.end) {}
+
+pub assume_specification<T, A> [VecDeque::<T, A>::shrink_to_fit] (v: &mut VecDeque<T, A>)
+    where A: std::alloc::Allocator,
+    ensures final(v)@ == old(v)@;
 
 // R2b: unreachable_unchecked() becomes a call that must be proved unreachable.
 #[verifier::external_body]
@@ -39,6 +44,23 @@ pub mod archetype {
         fn clone(&self) -> (r: Self) ensures r == *self { unimplemented!() }
     }
     impl<R: Registry> Copy for IdentifierRef<R> {}
+}
+
+
+// R7: hashbrown::HashMap is an opaque type whose abstract value is a (possibly infinite-domain)
+// map; `get` is assumed to be lookup in that map (assumption A3).
+pub struct FnvBuildHasher;
+#[verifier::external_body]
+#[verifier::accept_recursive_types(K)]
+#[verifier::accept_recursive_types(V)]
+#[verifier::accept_recursive_types(S)]
+pub struct HashMap<K, V, S> { p: PhantomData<(K, V, S)> }
+impl<K, V, S> HashMap<K, V, S> {
+    pub uninterp spec fn view(&self) -> IMap<K, V>;
+    #[verifier::external_body]
+    pub fn get(&self, k: &K) -> (r: Option<&V>)
+        ensures r == (if self@.dom().contains(*k) { Some(&self@[*k]) } else { None::<&V> })
+    { unimplemented!() }
 }
 
 pub mod entity {
@@ -93,6 +115,21 @@ impl<R> Location<R> where R: Registry {
     {
 
         Self { identifier, index }
+    
+    }
+
+    pub unsafe fn clone_with_new_identifier(&self, identifier_map: &HashMap< archetype::IdentifierRef<R>, archetype::IdentifierRef<R>, FnvBuildHasher, >,) -> (r: Self)
+        requires
+            identifier_map@.dom().contains(self.identifier),
+        ensures
+            r == (Location { identifier: identifier_map@[self.identifier], index: self.index }),
+    {
+
+        Self {
+
+            identifier: *unsafe { identifier_map.get(&self.identifier).unwrap() },
+            index: self.index,
+        }
     
     }
 
@@ -172,6 +209,37 @@ impl<R: Registry> Allocator<R> {
 }
 
 pub open spec fn vx_min(a: int, b: int) -> int { if a <= b { a } else { b } }
+
+/// a location re-keyed through the old-archetype -> new-archetype identifier map (C10)
+pub open spec fn vx_remap<R: Registry>(l: Option<Location<R>>, m: IMap<archetype::IdentifierRef<R>, archetype::IdentifierRef<R>>) -> Option<Location<R>> {
+    match l { Some(l) => Some(Location { identifier: m[l.identifier], index: l.index }), None => None }
+}
+
+impl<R: Registry> Allocator<R> {
+    /// safety precondition of clone / clone_from: the map covers every archetype some slot refers to
+    pub open spec fn map_covers(&self, m: IMap<archetype::IdentifierRef<R>, archetype::IdentifierRef<R>>) -> bool {
+        forall|s: int| 0 <= s < self.slots@.len() && (#[trigger] self.slots@[s]).location is Some ==> m.dom().contains(self.slots@[s].location->0.identifier)
+    }
+    /// `self` is `src` with every location re-keyed through `m`: same slots, same generations,
+    /// same free list -- so the same identifiers resolve, to the corresponding rows (C10, C02)
+    pub open spec fn is_remapped_copy_of(&self, src: &Self, m: IMap<archetype::IdentifierRef<R>, archetype::IdentifierRef<R>>) -> bool {
+        &&& self.slots@.len() == src.slots@.len()
+        &&& forall|s: int| 0 <= s < src.slots@.len() ==> (#[trigger] self.slots@[s]).generation == src.slots@[s].generation
+        &&& forall|s: int| 0 <= s < src.slots@.len() ==> (#[trigger] self.slots@[s]).location == vx_remap(src.slots@[s].location, m)
+        &&& self.free@ == src.free@
+    }
+    pub proof fn lemma_remapped_copy_wf(&self, src: &Self, m: IMap<archetype::IdentifierRef<R>, archetype::IdentifierRef<R>>)
+        requires self.is_remapped_copy_of(src, m), src.wf(),
+        ensures self.wf(), forall|id: entity::Identifier| self.resolves(id) == src.resolves(id),
+    {
+        assert forall|s: int| 0 <= s < self.slots@.len() && (#[trigger] self.slots@[s]).location is None implies self.free@.contains(s as usize) by {
+            assert(src.slots@[s].location is None);
+        }
+        assert forall|i: int| 0 <= i < self.free@.len() implies self.slots@[(#[trigger] self.free@[i]) as int].location is None by {
+            assert(src.slots@[src.free@[i] as int].location is None);
+        }
+    }
+}
 
 impl<R> Locations<R> where R: Registry {
     pub fn new(indices: Range<usize>, identifier: archetype::IdentifierRef<R>) -> (r: Self)
@@ -270,6 +338,21 @@ impl<R> Slot<R> where R: Registry {
     {
 
         self.location.is_some()
+    
+    }
+
+    pub unsafe fn clone_with_new_identifier(&self, identifier_map: &HashMap< archetype::IdentifierRef<R>, archetype::IdentifierRef<R>, FnvBuildHasher, >,) -> (r: Self)
+        requires
+            self.location is Some ==> identifier_map@.dom().contains(self.location->0.identifier),
+        ensures
+            r.generation == self.generation,
+            r.location == vx_remap(self.location, identifier_map@),
+    {
+
+        Self {
+            generation: self.generation,
+            location: match self.location { Some(location) => Some(unsafe { location.clone_with_new_identifier(identifier_map) }), None => None },
+        }
     
     }
 
@@ -761,6 +844,70 @@ proof {
             }
         }
 
+    }
+
+}
+
+impl<R> Allocator<R> where R: Registry {
+    pub fn shrink_to_fit(&mut self)
+        ensures
+            final(self).slots@ == old(self).slots@,
+            final(self).free@ == old(self).free@,
+    {
+
+        self.free.shrink_to_fit();
+    
+    }
+
+    pub unsafe fn clone(&self, identifier_map: &HashMap< archetype::IdentifierRef<R>, archetype::IdentifierRef<R>, FnvBuildHasher, >,) -> (r: Self)
+        requires
+            self.map_covers(identifier_map@),
+        ensures
+            r.is_remapped_copy_of(self, identifier_map@),
+    {
+
+        Self {
+            slots: { let mut vx_v: Vec<Slot<R>> = Vec::new(); let mut vx_i: usize = 0; while vx_i < self.slots.len() 
+            invariant
+                vx_i <= self.slots@.len() && vx_v@.len() == vx_i,
+                forall|s: int| 0 <= s < vx_i ==> (#[trigger] vx_v@[s]).generation == self.slots@[s].generation,
+                forall|s: int| 0 <= s < vx_i ==> (#[trigger] vx_v@[s]).location == vx_remap(self.slots@[s].location, identifier_map@),
+                self.map_covers(identifier_map@),
+            decreases self.slots@.len() - vx_i
+{ let slot = &self.slots[vx_i]; vx_v.push(unsafe {slot.clone_with_new_identifier(identifier_map)}); vx_i += 1; } vx_v },
+            free: self.free.clone(),
+        }
+    
+    }
+
+    pub unsafe fn clone_from(&mut self, source: &Self, identifier_map: &HashMap< archetype::IdentifierRef<R>, archetype::IdentifierRef<R>, FnvBuildHasher, >,)
+        requires
+            source.map_covers(identifier_map@),
+        ensures
+            final(self).is_remapped_copy_of(source, identifier_map@),
+    {
+
+
+        self.slots.truncate(source.slots.len());
+        let overlap = self.slots.len();
+        for (slot, source_slot) in self.slots.iter_mut().zip(source.slots.iter()) 
+            invariant
+                vx_i <= source.slots@.len() && self.slots@.len() == vx_i,
+                forall|s: int| 0 <= s < vx_i ==> (#[trigger] self.slots@[s]).generation == source.slots@[s].generation,
+                forall|s: int| 0 <= s < vx_i ==> (#[trigger] self.slots@[s]).location == vx_remap(source.slots@[s].location, identifier_map@),
+                source.map_covers(identifier_map@),
+            decreases source.slots@.len() - vx_i
+{
+            slot.location = source_slot.location.map(|location|
+
+                unsafe { location.clone_with_new_identifier(identifier_map) });
+        }
+        self.slots.extend(source.slots.iter().skip(overlap).map(|slot|
+
+            unsafe {slot.clone_with_new_identifier(identifier_map)}));
+
+        self.free = source.free.clone();
+    
     }
 
 }
